@@ -68,10 +68,25 @@ fn roundtrip(idx: u64, rng: &mut Rng, mon: &mut Mon) {
             let j = rng.usize(6);
             p.offsets[j] = rng.sign() * rng.logu(1e-6, 2e-3);
         }
+        // (the reader blocks the sixth sign of every dof-5 set, as documented: that is their normal form)
+        if p.dof == 5 {
+            p.signs[5] = 0;
+        }
         // (a blocked sixth joint - sign correction 0 - can be declared with either dof value)
         if p.dof == 6 && rng.bool(0.1) {
             p.signs[5] = 0;
             mon.count("roundtrip.dof6_with_blocked_j6_sign");
+        }
+        // offsets that cancel exactly (+x on one joint, -x on another; the sum of all offsets is 0.0)
+        if rng.bool(0.15) {
+            let (a, b) = (rng.usize(6), rng.usize(6));
+            if a != b {
+                let x = *rng.pick(&[std::f64::consts::FRAC_PI_2, std::f64::consts::PI, 0.25f64.to_radians(), 1.0, rng.clone().range(0.01, 3.0)]);
+                p.offsets = [0.0; 6];
+                p.offsets[a] = x;
+                p.offsets[b] = -x;
+                mon.count("roundtrip.offsets_cancelling_exactly");
+            }
         }
         p.a1 = integralize(rng, p.a1);
         p.a2 = integralize(rng, p.a2);
